@@ -83,20 +83,20 @@ theorem noPanic_decCoords3 (parse : Parse) (j : J) : NoPanic (decCoords3 parse j
 theorem noPanic_guess0 (c : Option (List Ord)) : NoPanic (guess0 c) := by
   unfold guess0; split <;> first | exact noPanic_ok _ | exact noPanic_err _
 
-theorem noPanic_guess1 (cs : List (Option (List Ord))) : NoPanic (guess1 cs) := by
+theorem noPanic_guess1 (dl : Layout) (cs : List (Option (List Ord))) : NoPanic (guess1 dl cs) := by
   unfold guess1; split
   · exact noPanic_ok _
   · exact noPanic_guess0 _
 
-theorem noPanic_guess2 (cs : List (List (Option (List Ord)))) : NoPanic (guess2 cs) := by
+theorem noPanic_guess2 (dl : Layout) (cs : List (List (Option (List Ord)))) : NoPanic (guess2 dl cs) := by
   unfold guess2; split
   · exact noPanic_ok _
-  · exact noPanic_guess1 _
+  · exact noPanic_guess1 _ _
 
-theorem noPanic_guess3 (cs : List (List (List (Option (List Ord))))) : NoPanic (guess3 cs) := by
+theorem noPanic_guess3 (dl : Layout) (cs : List (List (List (Option (List Ord))))) : NoPanic (guess3 dl cs) := by
   unfold guess3; split
   · exact noPanic_ok _
-  · exact noPanic_guess2 _
+  · exact noPanic_guess2 _ _
 
 theorem noPanic_pointSet (l : Layout) (c : List Ord) : NoPanic (Point.setCoords l c) := by
   unfold Point.setCoords deflate0
@@ -137,7 +137,7 @@ theorem noPanic_gsOf (parse : Parse) (fuel : Nat) (cur : GS) (j : J) : NoPanic (
 
 /-- **Geometry.Decode is total**: for every decoded Geometry struct it returns a geometry or an
 error, never a panic. -/
-theorem C07_decode_total (parse : Parse) (fuel : Nat) (g : GS) : NoPanic (decode parse fuel g) := by
+theorem C07_decode_total (dl : Layout) (parse : Parse) (fuel : Nat) (g : GS) : NoPanic (decode dl parse fuel g) := by
   induction fuel generalizing g with
   | zero => exact noPanic_err _
   | succ fuel ih =>
@@ -153,27 +153,27 @@ theorem C07_decode_total (parse : Parse) (fuel : Nat) (g : GS) : NoPanic (decode
     · split
       · exact noPanic_ok _
       · exact noPanic_bind (noPanic_decCoords1 _ _) fun cs =>
-          noPanic_bind (noPanic_guess1 _) fun l =>
+          noPanic_bind (noPanic_guess1 _ _) fun l =>
             noPanic_bind (noPanic_lineSet _ _) fun _ => noPanic_ok _
     · split
       · exact noPanic_ok _
       · exact noPanic_bind (noPanic_decCoords2 _ _) fun cs =>
-          noPanic_bind (noPanic_guess2 _) fun l =>
+          noPanic_bind (noPanic_guess2 _ _) fun l =>
             noPanic_bind (noPanic_polySet _ _) fun _ => noPanic_ok _
     · split
       · exact noPanic_ok _
       · exact noPanic_bind (noPanic_decCoords1 _ _) fun cs =>
-          noPanic_bind (noPanic_guess1 _) fun l =>
+          noPanic_bind (noPanic_guess1 _ _) fun l =>
             noPanic_bind (noPanic_mpointSet _ _) fun _ => noPanic_ok _
     · split
       · exact noPanic_ok _
       · exact noPanic_bind (noPanic_decCoords2 _ _) fun cs =>
-          noPanic_bind (noPanic_guess2 _) fun l =>
+          noPanic_bind (noPanic_guess2 _ _) fun l =>
             noPanic_bind (noPanic_polySet _ _) fun _ => noPanic_ok _
     · split
       · exact noPanic_ok _
       · exact noPanic_bind (noPanic_decCoords3 _ _) fun cs =>
-          noPanic_bind (noPanic_guess3 _) fun l =>
+          noPanic_bind (noPanic_guess3 _ _) fun l =>
             noPanic_bind (noPanic_mpolySet _ _) fun _ => noPanic_ok _
     · refine noPanic_bind ?_ fun subs => noPanic_bind (noPanic_mapM _ (ih) _) fun _ => noPanic_ok _
       split
@@ -186,12 +186,12 @@ theorem C07_decode_total (parse : Parse) (fuel : Nat) (g : GS) : NoPanic (decode
       · exact noPanic_err _
     · exact noPanic_err _
 
-theorem C07_unmarshal_total (parse : Parse) (fuel : Nat) (j : J) : NoPanic (unmarshal parse fuel j) := by
+theorem C07_unmarshal_total (dl : Layout) (parse : Parse) (fuel : Nat) (j : J) : NoPanic (unmarshal dl parse fuel j) := by
   unfold unmarshal
   split
   · exact noPanic_ok _
   · exact noPanic_bind (noPanic_gsOf _ _ _ _) fun g =>
-      noPanic_bind (C07_decode_total _ _ _) fun _ => noPanic_ok _
+      noPanic_bind (C07_decode_total _ _ _ _) fun _ => noPanic_ok _
   · exact noPanic_err _
 
 theorem noPanic_decodeBBox (bb : List Ord) : NoPanic (decodeBBox bb) := by
@@ -202,12 +202,12 @@ macro "np_auto" : tactic => `(tactic|
     | exact noPanic_ok _
     | exact noPanic_err _
     | exact noPanic_decodeBBox _
-    | exact C07_decode_total _ _ _
+    | exact C07_decode_total _ _ _ _
     | refine noPanic_bind ?_ (fun _ => ?_)
     | split))
 
-theorem C07_feature_total (parse : Parse) (fmt : Ord → String) (fuel : Nat) (j : J) :
-    NoPanic (featureOf parse fmt fuel j) := by
+theorem C07_feature_total (dl : Layout) (parse : Parse) (fmt : Ord → String) (fuel : Nat) (j : J) :
+    NoPanic (featureOf dl parse fmt fuel j) := by
   unfold featureOf
   split
   · simp only
@@ -215,8 +215,8 @@ theorem C07_feature_total (parse : Parse) (fmt : Ord → String) (fuel : Nat) (j
   · exact noPanic_err _
   · exact noPanic_err _
 
-theorem C07_feature_collection_total (parse : Parse) (fmt : Ord → String) (fuel : Nat) (j : J) :
-    NoPanic (featureCollectionOf parse fmt fuel j) := by
+theorem C07_feature_collection_total (dl : Layout) (parse : Parse) (fmt : Ord → String) (fuel : Nat) (j : J) :
+    NoPanic (featureCollectionOf dl parse fmt fuel j) := by
   unfold featureCollectionOf
   split
   · simp only
@@ -302,11 +302,11 @@ theorem C07_xym_comes_back_xyz (c : List Ord) (hc : c.length = Layout.stride 3) 
 /-- **LineString / MultiPoint-free round trip.** Any layout but XYM, at least one position, every
 position of the layout's stride: decoding the emitted coordinate array gives exactly
 `SetCoords` of the original coordinates in the original layout. -/
-theorem C07_linestring_roundtrip (parse : Parse) (fmt : Ord → String) (fuel : Nat) (l : Nat)
+theorem C07_linestring_roundtrip (dl : Layout) (parse : Parse) (fmt : Ord → String) (fuel : Nat) (l : Nat)
     (hl : 1 ≤ l) (h3 : l ≠ 3) (c0 : List Ord) (rest : List (List Ord))
     (hlen : c0.length = Layout.stride l) (hr : ∀ c ∈ c0 :: rest, ∀ x ∈ c, Reads parse fmt x) (g : GS)
     (ht : g.type = "LineString") (hc : g.coordinates = some (jCoords1 fmt (c0 :: rest))) :
-    decode parse (fuel + 1) g = (Line.setCoords l (c0 :: rest)).map .lineString := by
+    decode dl parse (fuel + 1) g = (Line.setCoords l (c0 :: rest)).map .lineString := by
   unfold decode
   simp only [ht, hc]
   rw [decCoords1_j parse fmt _ hr]
@@ -314,11 +314,11 @@ theorem C07_linestring_roundtrip (parse : Parse) (fmt : Ord → String) (fuel : 
   rw [show unNil (some c0 :: rest.map some) = c0 :: rest from unNil_map_some (c0 :: rest)]
   cases Line.setCoords l (c0 :: rest) <;> rfl
 
-theorem C07_point_roundtrip (parse : Parse) (fmt : Ord → String) (fuel : Nat) (l : Nat)
+theorem C07_point_roundtrip (dl : Layout) (parse : Parse) (fmt : Ord → String) (fuel : Nat) (l : Nat)
     (hl : 1 ≤ l) (h3 : l ≠ 3) (c : List Ord) (hlen : c.length = Layout.stride l)
     (hr : ∀ x ∈ c, Reads parse fmt x) (g : GS)
     (ht : g.type = "Point") (hc : g.coordinates = some (jCoord fmt c)) :
-    decode parse (fuel + 1) g = (Point.setCoords l c).map .point := by
+    decode dl parse (fuel + 1) g = (Point.setCoords l c).map .point := by
   have hne : (c.isEmpty) = false := by
     cases c with
     | nil =>
@@ -335,12 +335,12 @@ theorem C07_point_roundtrip (parse : Parse) (fmt : Ord → String) (fuel : Nat) 
   cases Point.setCoords l c <;> rfl
 
 /-- **Polygon round trip** (first ring not empty). -/
-theorem C07_polygon_roundtrip (parse : Parse) (fmt : Ord → String) (fuel : Nat) (l : Nat)
+theorem C07_polygon_roundtrip (dl : Layout) (parse : Parse) (fmt : Ord → String) (fuel : Nat) (l : Nat)
     (hl : 1 ≤ l) (h3 : l ≠ 3) (c0 : List Ord) (ring0 : List (List Ord)) (rest : List (List (List Ord)))
     (hlen : c0.length = Layout.stride l)
     (hr : ∀ cs ∈ (c0 :: ring0) :: rest, ∀ c ∈ cs, ∀ x ∈ c, Reads parse fmt x) (g : GS)
     (ht : g.type = "Polygon") (hc : g.coordinates = some (jCoords2 fmt ((c0 :: ring0) :: rest))) :
-    decode parse (fuel + 1) g = (Poly.setCoords l ((c0 :: ring0) :: rest)).map .polygon := by
+    decode dl parse (fuel + 1) g = (Poly.setCoords l ((c0 :: ring0) :: rest)).map .polygon := by
   unfold decode
   simp only [ht, hc]
   rw [decCoords2_j parse fmt _ hr]
@@ -356,12 +356,12 @@ theorem C07_polygon_roundtrip (parse : Parse) (fmt : Ord → String) (fuel : Nat
   cases Poly.setCoords l ((c0 :: ring0) :: rest) <;> rfl
 
 /-- **MultiLineString round trip** (first line not empty). -/
-theorem C07_multilinestring_roundtrip (parse : Parse) (fmt : Ord → String) (fuel : Nat) (l : Nat)
+theorem C07_multilinestring_roundtrip (dl : Layout) (parse : Parse) (fmt : Ord → String) (fuel : Nat) (l : Nat)
     (hl : 1 ≤ l) (h3 : l ≠ 3) (c0 : List Ord) (line0 : List (List Ord)) (rest : List (List (List Ord)))
     (hlen : c0.length = Layout.stride l)
     (hr : ∀ cs ∈ (c0 :: line0) :: rest, ∀ c ∈ cs, ∀ x ∈ c, Reads parse fmt x) (g : GS)
     (ht : g.type = "MultiLineString") (hc : g.coordinates = some (jCoords2 fmt ((c0 :: line0) :: rest))) :
-    decode parse (fuel + 1) g = (Poly.setCoords l ((c0 :: line0) :: rest)).map .multiLineString := by
+    decode dl parse (fuel + 1) g = (Poly.setCoords l ((c0 :: line0) :: rest)).map .multiLineString := by
   unfold decode
   simp only [ht, hc]
   rw [decCoords2_j parse fmt _ hr]
@@ -377,14 +377,14 @@ theorem C07_multilinestring_roundtrip (parse : Parse) (fmt : Ord → String) (fu
   cases Poly.setCoords l ((c0 :: line0) :: rest) <;> rfl
 
 /-- **MultiPolygon round trip** (first ring of the first polygon not empty). -/
-theorem C07_multipolygon_roundtrip (parse : Parse) (fmt : Ord → String) (fuel : Nat) (l : Nat)
+theorem C07_multipolygon_roundtrip (dl : Layout) (parse : Parse) (fmt : Ord → String) (fuel : Nat) (l : Nat)
     (hl : 1 ≤ l) (h3 : l ≠ 3) (c0 : List Ord) (ring0 : List (List Ord))
     (poly0 : List (List (List Ord))) (rest : List (List (List (List Ord))))
     (hlen : c0.length = Layout.stride l)
     (hr : ∀ css ∈ ((c0 :: ring0) :: poly0) :: rest, ∀ cs ∈ css, ∀ c ∈ cs, ∀ x ∈ c, Reads parse fmt x)
     (g : GS) (ht : g.type = "MultiPolygon")
     (hc : g.coordinates = some (jCoords3 fmt (((c0 :: ring0) :: poly0) :: rest))) :
-    decode parse (fuel + 1) g
+    decode dl parse (fuel + 1) g
       = (MPoly.setCoords l (((c0 :: ring0) :: poly0) :: rest)).map .multiPolygon := by
   unfold decode
   simp only [ht, hc]
@@ -409,14 +409,14 @@ theorem C07_multipolygon_roundtrip (parse : Parse) (fmt : Ord → String) (fuel 
 
 /-- **MultiPoint round trip**: members `none` are empty points (written `null`); the first member
 must be a position. -/
-theorem C07_multipoint_roundtrip (parse : Parse) (fmt : Ord → String) (fuel : Nat) (l : Nat)
+theorem C07_multipoint_roundtrip (dl : Layout) (parse : Parse) (fmt : Ord → String) (fuel : Nat) (l : Nat)
     (hl : 1 ≤ l) (h3 : l ≠ 3) (c0 : List Ord) (rest : List (Option (List Ord)))
     (hlen : c0.length = Layout.stride l)
     (hr : ∀ x ∈ c0, Reads parse fmt x) (hrr : ∀ c ∈ rest, ∀ y ∈ c, ∀ x ∈ y, Reads parse fmt x) (g : GS)
     (ht : g.type = "MultiPoint")
     (hc : g.coordinates = some (.arr (jCoord fmt c0 :: rest.map fun c => match c with
       | some c => jCoord fmt c | none => .null))) :
-    decode parse (fuel + 1) g = (MPoint.setCoords l (some c0 :: rest)).map .multiPoint := by
+    decode dl parse (fuel + 1) g = (MPoint.setCoords l (some c0 :: rest)).map .multiPoint := by
   unfold decode
   simp only [ht, hc]
   have hd : decCoords1 parse (.arr (jCoord fmt c0 :: rest.map fun c => match c with
@@ -433,10 +433,11 @@ theorem C07_multipoint_roundtrip (parse : Parse) (fmt : Ord → String) (fuel : 
   simp only [Outcome.bind_ok, guess1, guess0_of_stride l hl h3 c0 hlen]
   cases MPoint.setCoords l (some c0 :: rest) <;> rfl
 
-/-- No coordinates: the default layout (XY), whatever the original layout was. -/
-theorem C07_empty_default_layout (parse : Parse) (fuel : Nat) (g : GS)
+/-- No coordinates: the default layout `dl` (geojson.DefaultLayout: XY unless the caller has set it),
+whatever the original layout was. -/
+theorem C07_empty_default_layout (dl : Layout) (parse : Parse) (fuel : Nat) (g : GS)
     (ht : g.type = "LineString") (hc : g.coordinates = some (.arr [])) :
-    decode parse (fuel + 1) g = .ok (.lineString ⟨1, 2, [], 0⟩) := by
+    decode dl parse (fuel + 1) g = (Line.setCoords dl []).map .lineString := by
   unfold decode
   simp only [ht, hc]
   rfl
